@@ -52,6 +52,45 @@ CHECKS.update({
          "Trusts the harness byte walker; hook H2 (pack_mock_graph) is additional, the public dump_table route needs no hook. Two listed findings (mixed-width and nested 32-bit targets) are tolerated only when their structural predicate holds.",
          "DESIGN.md §4 C05"),
 })
+
+CHECKS.update({
+ "C07": ("generated compilation recipes re-run under an owned object-id gap schedule (hook H1), after unrelated work, on real threads and in fresh processes; oracle: byte equality",
+         "Exploration with an owned schedule: tens of thousands of generated values (layout/name/STAT/COLR/IVS tables, GPOS builders past 64 KiB, gvar, mock graphs, FontBuilder inputs, klippa subsets) are compiled once and recompiled under generated id-gap plans (the observable effect of any interleaving on the global object counter), after unrelated compilations, on 2..24 real threads and in >= 8 fresh processes (fresh hash seeds); all outputs must be byte-identical.",
+         "Hook H1 (push_id_gaps) owns the only cross-thread state that exists today; real-thread and fresh-process stages sample whatever else a change might introduce.",
+         "DESIGN.md §4 C07"),
+ "C10": ("exhaustive small contours + proptest random contours / gvar inputs / locations vs exact-rational (i128 fraction) IUP inference, an independent gvar decoder and exact tent arithmetic",
+         "Exploration, partly exhaustive: every contour of five finite alphabets through iup_delta_optimize; random multi-contour cases; GlyphVariations -> Gvar -> bytes decoded by an independent spec decoder and by read-fonts (peaks, point numbers, run/gap boundaries, shared points, short/long offsets); drawn outlines at generated locations vs default + sum(scalar*delta) in exact rationals with a bound derived from the fixed-point widths.",
+         "Trusts the in-file rational arithmetic, the spec transcription of IUP inference and packed point/delta decoding, and vcore::fontkit's hand-encoded fvar/head/maxp.",
+         "DESIGN.md §4 C10"),
+ "C11": ("proptest-generated delta-set multisets / axis records / segment maps / HVAR fonts vs an independent byte-level row decoder and exact-rational tent, normalisation and interpolation arithmetic",
+         "Exploration: generated VariationStoreBuilder inputs (up to > 65 535 rows, both index modes) built, compiled and read back through the returned remap with an independent row decoder; compute_delta vs exact rational sums; axis normalisation and avar segment maps at boundaries and between points; skrifa metrics on fonts with hand-assembled HVAR (with/without index maps) for all glyph ids incl. beyond the long-metric and glyph counts.",
+         "Trusts the harness's rational arithmetic and its hand encoders for avar/HVAR/DeltaSetIndexMap; bounds are derived from the fixed-point widths, not tuned.",
+         "DESIGN.md §4 C11"),
+ "C12": ("metamorphic generated-history search: draw under generated reconfigure histories / buffers / zero locations / threads / fresh processes vs a fresh-instance baseline (bit equality)",
+         "Exploration: 61 corpus fonts (incl. heavily instructed ones) and three hand-assembled instructed fonts x generated configurations; every variation (caller memory of all fill patterns and alignments, all-zero location, 0..6 prior reconfigures incl. other fonts/formats, prior draws, clones, 8..12 threads sharing one instance, fresh processes) must reproduce the baseline pen stream and metrics bit for bit; TrueType streams must be well-formed.",
+         "Thread interleavings are sampled, not enumerated; the baseline is the library itself (metamorphic), so a defect affecting baseline and variation alike is C03's business.",
+         "DESIGN.md §4 C12"),
+ "C14": ("model-based operation histories (exhaustive to length 4 + proptest long histories) vs a range-list model; sparse-bit-set codec vs a spec transcription (differential) and round trip",
+         "Exploration, partly exhaustive: all 1.85 M histories of length <= 4 over a 31-op alphabet spanning two page edges (thorough; seeded 1/20 stride in quick), random histories up to 200 steps over 8 element domains incl. a discontinuous one with the whole query surface compared after every step, Eq/Ord/Hash on independently built pairs, RangeSet invariants, codec round trips for all branch factors and millions of byte strings against the harness's transcription of the decoding algorithm.",
+         "Trusts the harness's range-list model and its u128 transcription of the sparse-bit-set decoding algorithm; heights above the documented maximum are checked for no-panic only.",
+         "DESIGN.md §4 C14"),
+ "C16": ("proptest-generated glyph sets and pair / mark-base rule sets (up to several x 64 KiB) vs a reference lookup walker over the compiled bytes",
+         "Exploration: coverage/class builders checked for every glyph 0..=65535; generated Gpos tables with PairPos (glyph and class rules, 1..8 value fields, devices/variation indices) and MarkToBase lookups, sized from tiny to several times the 16-bit offset limit, compiled through the public builders and evaluated by a harness walker (unwrapping extensions, formats 1/2, mark/base anchors) against the rule model incl. pairs without rules.",
+         "Trusts the harness walker and rule model (first-match semantics as documented by the builders); large cases are query-sampled (all glyph-pair rules exactly, class cells against sampled second glyphs).",
+         "DESIGN.md §4 C16"),
+ "C17": ("proptest-generated subset requests over the corpus vs original-vs-subset observation equality through skrifa (hook H3 for the glyph renumbering); fixpoint re-subsetting",
+         "Exploration: ~15 k (quick) / ~125 k (thorough) generated requests (character and glyph-id sets of all shapes, 16 flag combinations, sizes, locations) over 49 corpus fonts; the subset must open, keep requested glyphs + .notdef + component closure, map requested characters to renumbered glyphs and nothing else, and give bit-identical unhinted outlines, advances and side bearings for kept glyphs; requesting everything and re-subsetting a subset change nothing.",
+         "Hook H3 exposes klippa's glyph map; the component closure is computed by a glyf parser in the harness; up to 160 kept glyphs per case are compared.",
+         "DESIGN.md §4 C17"),
+ "C18": ("model-based patch generation (patches generated together with the expected font) + decoder fault enumeration at every call k x every error kind; order/grouping permutations",
+         "Exploration + fault enumeration: synthetic IFT fonts (glyf/loca, gvar, CFF/CFF2 INDEX, sizes planted at the widening limits) with hand-encoded mapping tables; generated table-keyed and glyph-keyed patches with a model of the result; every patched/untouched table and glyph compared; every decoder call failed with every DecodeError kind and wrong compatibility ids must give Err with the caller's status map untouched; permuted / regrouped applications must give identical tables.",
+         "Trusts the harness's transparent decoder, its loca/gvar/INDEX decoders and the patch encoders; the built-in brotli decoder is exercised on the repository's fixture streams only.",
+         "DESIGN.md §4 C18"),
+ "C19": ("structured generation of format-1/2 mapping tables and subset-definition chains vs a reference intersection, metamorphic monotonicity, group invariants and a progress loop",
+         "Exploration: generated mapping tables (all code-point encodings and branch factors, features, design-space segments, child trees, id deltas/strings, ignored flags, both tables present) x definition chains D1 <= D2 <= ... <= all; intersecting_patches must equal the harness's reference as a multiset, be monotone along the chain, select_next_patches must satisfy the grouping/maximality rules, and select->apply loops must make progress and terminate; byte-havoc tables are checked with the model-free oracles only.",
+         "Trusts the harness's format-1/2 encoders and its reference intersection written from the rules quoted in the repository (the IFT specification text is not available offline).",
+         "DESIGN.md §4 C19"),
+})
 NOT_YET = {}  # id -> reason
 
 ALL = ["C%02d" % i for i in range(1, 21)]
